@@ -41,7 +41,12 @@ def specs(tier):
     # behaviour (kids="impl"); the deviation of that behaviour from pest is C04's finding F8
     from . import ops
 
-    return [*templates.all_templates(3 if tier == "quick" else 5, kids="impl"), ops.RuleSpec(4, None, "impl")]
+    # the nodes only the optimizer creates (SkipUntil, RegexExpression, OptimizedChoice) have interpreters and templates of
+    # their own: both sides against the same contract here too (a second-round seed changed SkipUntil.generate only and
+    # went unnoticed by C01 while these lived in C02 alone)
+    return [*templates.all_templates(3 if tier == "quick" else 5, kids="impl"), ops.RuleSpec(4, None, "impl"),
+            ops.SkipUntilSpec(), ops.RegexNodeSpec("RegexExpression"), ops.RegexNodeSpec("OptimizedChoice"),
+            *templates.skipuntil_templates(), *templates.regex_node_templates()]
 
 
 concretise = concretise_ops(PROPERTY, default_modes=("interp", "gen", "interp+opt", "gen+opt"))
